@@ -480,6 +480,8 @@ def cref(tok):
 
 def cresult(r):
     if r[0] == 'ret':
+        if not isinstance(r[1], list) or not all(isinstance(i, int) for i in r[1]):
+            return '(Return [(-777)])'        # not the value of the body: never what the model computes
         return '(Return [%s])' % '; '.join(z(i) for i in r[1])
     code = r[1]
     e = {'XUser': '(XUser %d%%nat)' % r[2], 'XNotFound': 'XNotFound', 'XLocked': 'XLocked', 'XNoConnection': 'XNoConnection',
